@@ -163,11 +163,26 @@ fn random_dfa(rng: &mut Rng, k: usize, nprods: usize, alpha: usize, prefix_free:
         for &i in &inner {
             for &j in &inner {
                 let (v1, (u2, v2)) = (trans[i].2, (trans[j].0, trans[j].2));
-                if !done && v1 < v2 && u2 > v1 && depth_of[v1] == depth_of[v2] {
+                let _ = u2;
+                if !done && v1 < v2 && depth_of[v1] == depth_of[v2] {
                     trans[j].2 = v1;
                     done = true;
                 }
             }
+        }
+    }
+    // The state numbers of a minimised automaton are not monotone along the paths (renumber_states only
+    // compacts the surviving ids): half of the automata get their non-start states renumbered at random.
+    if next_state > 2 && rng.chance(1, 2) {
+        let mut perm: Vec<usize> = (1..next_state).collect();
+        for i in (1..perm.len()).rev() {
+            let j = rng.below(i + 1);
+            perm.swap(i, j);
+        }
+        let map = |s: usize| if s == 0 { 0 } else { perm[s - 1] };
+        for t in trans.iter_mut() {
+            t.0 = map(t.0);
+            t.2 = map(t.2);
         }
     }
     // inner nodes that ended up without children but non-accepting are dead ends: fine (error paths)
